@@ -13,43 +13,24 @@ RULE = ("state = canonical key of the real exchange reached by an operation hist
 ASSUMPTIONS = [
     "amounts 1..3 units, price grid {30,90,100,110,300}, volumes {0,10,40,41.7,1e5}; configurations of "
     "checks/_exch_common.py (fee x liquidity x lending x precision x initial balances x 1-2 pairs)",
-    "acceptance boundary: every order type x side x 1/3/7 units x awkward prices x with/without a last price x 7 fee schemes x 4-6 precisions, no borrowing",
+    "acceptance boundary: every order type x side x 1/3/7/123456789/1e9 units x awkward prices x with/without a last price x 7 fee schemes x 4-6 precisions, no borrowing",
     "strategy actions are issued after at least one bar (orders placed before the first event are a separate scenario)",
     "the synchronous driver is validated against the public-API driver on all short histories (conformance scenarios) "
     "and on every reported violation",
 ]
-SPEC = {'conf_quick': [('K1', 3)],
- 'conf_thorough': [('K1', 4), ('K10', 3)],
- 'quick': [('K1', 'ar', 7),
-           ('K0', 'std', 3),
-           ('K0', 'small', 4),
-           ('K1', 'std', 3),
-           ('K0', 'liq', 4),
-           ('K10', 'lend', 4),
-           ('K11', 'small', 4),
-           ('lasso', 'K1', 'small', 2, 6)],
- 'thorough': [('K1', 'ar', 8),
-              ('K10', 'ar', 8),
-              ('K13', 'ar', 8),
-              ('K0', 'std', 4),
-              ('K1', 'std', 4),
-              ('K2', 'std', 4),
-              ('K3', 'std', 4),
-              ('K4', 'std', 4),
-              ('K8', 'std', 4),
-              ('K10', 'std', 4),
-              ('K11', 'std', 4),
-              ('K13', 'std', 4),
-              ('K14', 'std', 4),
-              ('K7', 'std', 3),
-              ('K1', 'small', 5),
-              ('K10', 'small', 5),
-              ('K0', 'liq', 5),
-              ('K14', 'liq', 5),
-              ('K10', 'lend', 5),
-              ('K13', 'lend', 5),
-              ('lasso', 'K0', 'liq', 3, 10),
-              ('lasso', 'K10', 'lend', 3, 6)]}
+SPEC = {
+    'quick': [('K1', 'ar', 7),
+              ('K0', 'std', 3),
+              ('K0', 'small', 4),
+              ('K1', 'std', 3),
+              ('K0', 'liq', 4),
+              ('K10', 'lend', 4),
+              ('K11', 'small', 4),
+              ('lasso', 'K1', 'small', 2, 6)],
+    'conf_quick': [('K1', 3)],
+    'conf_thorough': [('K1', 3), ('K10', 3)],
+}
+SPEC['thorough'] = X.thorough_spec(SPEC['quick'], [('K10', 'lend'), ('K13', 'lend')])
 BOUNDS = {t: dict(spec=SPEC[t]) for t in ("quick", "thorough")}
 EXPLANATION = ("explicit-state BFS over operation histories with state de-duplication; every transition executes the "
                "real exchange; traces_validated_against_impl = histories executed through BOTH drivers (sync and "
@@ -68,7 +49,7 @@ def scenarios(tier, seed):
 # ---- acceptance boundary (no borrowing): accepted with exactly the reservation available, rejected with one unit less
 FEES = (None, (1, 0), ("0.25", 2), (50, 0), (0, 5), ("2.5", "0.01"), ("99.99", 0))
 PRICES = ("33.337", "100", "0.00000123", "10.10", "1234.5678", "0.07")
-UNITS = (1, 3, 7)
+UNITS = (1, 3, 7, 123456789, 10 ** 9)  # large amounts: a relative tolerance would exceed one precision unit
 
 
 def _attempt(init, kind, side, amt, lim, stp, close, fee, bp, qp):
